@@ -727,9 +727,10 @@ def hsla_to_rgb(hsla_color, background=None):
     r, g, b = rgb
     bg_r, bg_g, bg_b = bg_rgb
 
-    final_r = int(a * r + (1 - a) * bg_r)
-    final_g = int(a * g + (1 - a) * bg_g)
-    final_b = int(a * b + (1 - a) * bg_b)
+    # round to the nearest 8-bit value like rgba_to_rgb does (int() alone would truncate)
+    final_r = int(round(a * r + (1 - a) * bg_r))
+    final_g = int(round(a * g + (1 - a) * bg_g))
+    final_b = int(round(a * b + (1 - a) * bg_b))
 
     return (final_r, final_g, final_b)
 
